@@ -249,13 +249,28 @@ class StmtsMixin:
         a = ast.Assign(targets=[s.target], value=load, lineno=s.lineno)
         return self.st_Assign(a, st, d)
 
+    def isinstance_narrowing(self, test):
+        """(name, class, positive?) if the test is `isinstance(name, Class)` or its negation"""
+        pos = True
+        if isinstance(test, ast.UnaryOp) and isinstance(test.op, ast.Not):
+            test, pos = test.operand, False
+        if isinstance(test, ast.Call) and isinstance(test.func, ast.Name) and test.func.id == "isinstance" and len(test.args) == 2 \
+                and isinstance(test.args[0], ast.Name) and isinstance(test.args[1], ast.Name) and test.args[1].id in self.src.classes:
+            return test.args[0].id, test.args[1].id, pos
+        return None
+
     def st_If(self, s, st, d):
         out = []
+        nar = self.isinstance_narrowing(s.test)
         for s1, c in self.ev(s.test, st, d):
             t = truth(c, s1)
-            for body, cond in ((s.body, t), (s.orelse, z3.Not(t))):
+            for body, cond, branch in ((s.body, t, True), (s.orelse, z3.Not(t), False)):
                 s2 = s1.copy(); s2.assume(cond)
                 if feasible(s2.pc):
+                    if nar and nar[2] == branch:
+                        v = s2.env.get(nar[0])
+                        if v is not None and v.ty[0] == "ref" and v.ty[1] in self.src.mro(nar[1]) and v.ty[1] != nar[1]:
+                            s2.env = dict(s2.env); s2.env[nar[0]] = V(("ref", nar[1]), v.term)      # static type narrowed by the test
                     out += self.run(body, s2, d)
         return out
 
